@@ -275,6 +275,13 @@ def _explore_chunk(modname, hname, prefix, budget_s, max_paths, seed, want_funcs
                 vals, _m = pm
                 crec = run_concrete(h, vals, exact=h.exact)
                 ok = crec['status'] == 'ok' and crec['claims'] and all(s == 'ok' for _, s in crec['claims'])
+                if getattr(h, 'float_region', False) and not ok and crec['status'] == 'ok' and not rec.get('cex'):
+                    # region harness: its inputs are confined, by assumption, to a region where doubles behave differently
+                    # from reals; there the concrete twin's verdict on the path model IS the check (replayed like any
+                    # other counterexample before it is reported)
+                    failed = [c for c, s_ in crec['claims'] if s_ != 'ok']
+                    rec['cex'] = (failed[0], vals)
+                    rec['notes'] = list(rec.get('notes', [])) + ['float-region twin: claim holds over the reals, fails in doubles']
                 witnesses.append({'decisions': rec['decisions'], 'ok': bool(ok), 'status': crec['status'],
                                   'n_claims': len(crec['claims']),
                                   'failed': [c for c, s in crec['claims'] if s != 'ok'],
